@@ -3,8 +3,9 @@
     DefaultExtender.Extend guarantees — C23 states it for one extension step on the
     byte-level model), the packet a host builds from a combinator path
     ([pkt_of_path]) and the provenance path read off a solution of the path combinator
-    ([prov_of]: one slice per edge = (segment, cut index), non-peering edges).
-    Definitions only. *)
+    ([prov_of]: one slice per edge = (segment, cut index), non-peering edges; for a solution
+    over a peering link see [peer_hops] in Proofs/CombinePeer.v and [pair_prov] in
+    Proofs/CombinePeerMain.v).  Definitions only. *)
 From Coq Require Import List NArith Bool Arith.
 From Scion Require Import Lib.Check Model.Router Model.Network Model.Prov.
 From Scion Require Import Model.Segment Model.SegID Model.Combinator.
@@ -98,10 +99,8 @@ Definition loop_free (p : Pv.prov) : Prop :=
   (forall k, (S k < Pv.nhops p)%nat -> Pv.ia p k <> Pv.ia p (Pv.nhops p - 1)).
 
 (** the side conditions of the forwarding theorem, read off the combinator's path: the ASes of
-    its hop fields in order; no peering slice; no hop field expired at [now]; the end hosts *)
+    its hop fields in order; no hop field expired at [now]; the end hosts *)
 Definition path_ias (cp : Cb.path) : list N := map fst (flat_map Cb.sl_hops (Cb.p_slices cp)).
-Definition no_peering (cp : Cb.path) : Prop :=
-  Forall (fun sl => Cb.i_peer (Cb.sl_info sl) = false) (Cb.p_slices cp).
 Definition path_unexpired (now : N) (cp : Cb.path) : Prop :=
   Forall (fun sl => Forall (fun x =>
     (Cb.i_ts (Cb.sl_info sl) * 1000000000 + (Sg.h_exp (snd x) + 1) * R.ExpUnitNs <? now) = false)
